@@ -7,9 +7,20 @@ C12 driver. Payload: `(hist (tbl (row v v v)…) (steps (st <stmt> (<binding>…
   stmt     ::= (select (expr…) expr nolim|atom) | (insert (atom…)) | (update c expr expr) | (delete expr)
 implModelObs = the observations of `exec` (bindings looked up while planning the cached AST),
 specObs = those of `execInlined` (values written as literals) on every well-bound step.
+
+Histories with schema changes (Gms/Model/PreparedSchema.lean), one fresh session per case:
+  `(shist (ord c…) (t (row v…)…) (u (row v v v)…) (stmts sstmt…) (steps sstep…))`
+  `(sast …same fields…)`: the statement cache after that history (Impl model only, specObs = "?")
+  sstmt    ::= (plain stmt) | (insall (atom…)) | (inscols (c…) (atom…)) | (star expr) | (nj expr)
+  sstep    ::= (x i (<binding>…)) | (ddl first c) | (ddl after c a) | (ddl add last) | (ddl add first)
+             | (ddl add after a) | (ddl drop)
+implModelObs = `implAll` (the cached ASTs of the session, re-bound at every execution; natural joins keep
+the USING list of their first bind), specObs = `specAll` (inlined text parsed afresh);
+region `natural_join_using_memoised` iff some execution runs a natural join on a stale USING list.
 -/
 import Gms.Driver.PreparedProto
-open Gms.Proto Gms.Sql Gms.Prepared Gms.PreparedProto
+import Gms.Model.PreparedSchema
+open Gms.Proto Gms.Sql Gms.Prepared Gms.PreparedProto Gms.PreparedSchema
 
 def wellBound (σ : Bindings) (st : Stmt) : Bool :=
   st.params.all (fun i => (lookup σ i).isSome) &&
@@ -23,8 +34,74 @@ def specAll : List (Stmt × Bindings) → Table → List Outcome
     let r := if wellBound σ st then execInlined σ st db else exec σ st db
     r.1 :: specAll rest r.2
 
+def sstmt? : Sexp → Option SStmt
+  | .list [.atom "plain", st] => (stmt? st).map .plain
+  | .list [.atom "insall", .list vals] => do pure (.insertAll (← vals.mapM atom?))
+  | .list [.atom "inscols", .list cols, .list vals] => do pure (.insertCols (← cols.mapM Sexp.nat?) (← vals.mapM atom?))
+  | .list [.atom "star", w] => (pexpr? w).map .selectStar
+  | .list [.atom "nj", w] => (pexpr? w).map (.natJoin [])
+  | _ => none
+
+def sstep? : Sexp → Option Step
+  | .list [.atom "x", i, .list bs] => do pure (.exec (← i.nat?) (← bs.mapM binding?))
+  | .list [.atom "ddl", .atom "first", c] => do pure (.ddl (.moveFirst (← c.nat?)))
+  | .list [.atom "ddl", .atom "after", c, a] => do pure (.ddl (.moveAfter (← c.nat?) (← a.nat?)))
+  | .list [.atom "ddl", .atom "add", .atom "last"] => some (.ddl (.addCol none))
+  | .list [.atom "ddl", .atom "add", .atom "first"] => some (.ddl (.addCol (some none)))
+  | .list [.atom "ddl", .atom "add", .atom "after", a] => do pure (.ddl (.addCol (some (some (← a.nat?)))))
+  | .list [.atom "ddl", .atom "drop"] => some (.ddl .dropCol)
+  | _ => none
+
+def showSOutcome : SOutcome → String
+  | .base o => showOutcome o
+  | .errCount => "err:1105"
+  | .errUnknownCol => "err:1054"
+
+def showObs : Obs → String
+  | .out o => showSOutcome o
+  | .ddl => "ddl"
+
+def wellBoundS (σ : Bindings) (st : SStmt) : Bool :=
+  st.params.all (fun i => (lookup σ i).isSome) &&
+  (List.range σ.length).all (fun i => !(lookup σ i).isSome || st.params.contains i)
+
+/-- Spec stream of a schema history: `specAll`, except that a mis-bound execution (no inlined
+counterpart) is taken from the Impl model run on the Spec's own state. -/
+def specAllS (texts : List SStmt) : List Step → Db → List Obs
+  | [], _ => []
+  | .ddl d :: rest, db => .ddl :: specAllS texts rest (d.apply db)
+  | .exec i σ :: rest, db =>
+    if wellBoundS σ (textOf texts i) then
+      .out (execSInlined σ (textOf texts i) db).1 :: specAllS texts rest (execSInlined σ (textOf texts i) db).2
+    else
+      .out (execS σ (textOf texts i) db).1 :: specAllS texts rest (execS σ (textOf texts i) db).2.1
+
+def parseShist (ord rows urows stmts steps : List Sexp) : Option (Db × List SStmt × List Step) :=
+  match ord.mapM Sexp.nat?, rows.mapM row?, urows.mapM row?, stmts.mapM sstmt?, steps.mapM sstep? with
+  | some ord, some rows, some urows, some texts, some steps => some ({ ord := ord, rows := rows, u := urows }, texts, steps)
+  | _, _, _, _, _ => none
+
 def handle (p : List Sexp) : String :=
   match p with
+  -- the statement cache after a schema history: which cached ASTs are no longer the parse of their text
+  -- (Impl model only: the property says nothing about the cache, specObs = "?")
+  | [.list [.atom "sast", .list (.atom "ord" :: ord), .list (.atom "t" :: rows), .list (.atom "u" :: urows),
+      .list (.atom "stmts" :: stmts), .list (.atom "steps" :: steps)]] =>
+    match parseShist ord rows urows stmts steps with
+    | some (db, texts, steps) =>
+      let d := " ".intercalate ((driftedStmts texts (finalCacheG bindAst texts steps db [])).map toString)
+      answer ("ast a:[" ++ d ++ "] b:[" ++ d ++ "]") "?"
+    | none => answer "bad-case"
+  | [.list [.atom "shist", .list (.atom "ord" :: ord), .list (.atom "t" :: rows), .list (.atom "u" :: urows),
+      .list (.atom "stmts" :: stmts), .list (.atom "steps" :: steps)]] =>
+    match ord.mapM Sexp.nat?, rows.mapM row?, urows.mapM row?, stmts.mapM sstmt?, steps.mapM sstep? with
+    | some ord, some rows, some urows, some texts, some steps =>
+      let db : Db := { ord := ord, rows := rows, u := urows }
+      let impl := " ; ".intercalate ((implAll texts steps db []).map showObs)
+      let spec := " ; ".intercalate ((specAllS texts steps db).map showObs)
+      let region := if staleFree texts steps db [] then "-" else "natural_join_using_memoised"
+      if impl == spec then answer impl "=" region else answer impl spec region
+    | _, _, _, _, _ => answer "bad-case"
   | [.list [.atom "hist", .list (.atom "tbl" :: rows), .list (.atom "steps" :: steps)]] =>
     match rows.mapM row?, steps.mapM step? with
     | some rows, some steps =>
